@@ -24,12 +24,13 @@ Record pw_obs := {
   pw_errors : list (bool * N);         (* (is_limit, index) in order *)
   pw_rec_high : N;
   pw_tok_high : N;
-  pw_struct : list pw_tok
+  pw_struct : list pw_tok;
+  pw_dropped : N                       (* ghost: bytes of text dropped by ty::parse (D3) *)
 }.
 
 Definition pw_fail (st : N) : pw_obs :=
   {| pw_status := st; pw_leaves := []; pw_range_end := 0; pw_errors := []; pw_rec_high := 0;
-     pw_tok_high := 0; pw_struct := [] |}.
+     pw_tok_high := 0; pw_struct := []; pw_dropped := 0 |}.
 
 Definition pw_of_result (o : outcome result) : pw_obs :=
   match o with
@@ -41,7 +42,8 @@ Definition pw_of_result (o : outcome result) : pw_obs :=
                                      pe_index e)) (r_errors r);
          pw_rec_high := tr_high (r_rec r);
          pw_tok_high := r_tokens_high r;
-         pw_struct := pw_flatten (r_tree r) |}
+         pw_struct := pw_flatten (r_tree r);
+         pw_dropped := blen (concat (map td (r_dropped r))) |}
   | Panic _ => pw_fail 1
   | OutOfFuel => pw_fail 2
   end.
@@ -51,7 +53,7 @@ Definition pw_run (e : pw_entry) (dbg : bool) (rl : N) (items : list item) : pw_
     match e with
     | PW_doc => parse_document_items dbg rl items
     | PW_selset => parse_selection_set_items dbg rl items
-    | PW_type => parse_type_ty_items dbg rl items
+    | PW_type => parse_type_items dbg rl items
     end.
 
 (* building items from plain data (token kinds by their position in lexer/token_kind.rs) *)
